@@ -68,7 +68,8 @@ def run(tier, R):
         cfgs += [("serial64", "release", "u64"), ("notables", "release", "u64"), ("ifma", "release", "u64")]
     FS = ctx.facts_for(R, [(c, m) for c, m, _ in cfgs])
     R.trust("rustc MIR; mirfacts; lib/absint.py + models (index intervals are over-approximations: a position outside every logged interval is accessed by no execution)")
-    R.note("NOT decided: that the accumulated point equals sum s_i*P_i (group arithmetic), nor the numerical exactness of the recodings")
+    R.note("NOT decided here: the group law (C03 formula decides the formulas) and termination bookkeeping of non_adjacent_form (that the final carry is zero: true for scalars below 2^255; coverage of all 256 positions is COVER.write); "
+           "as_radix_16 / as_radix_2w are decided exact and non_adjacent_form's loop is decided value-preserving per iteration by C04.recode, modulo digit ranges (C11)")
     R.note("FIT (digit ranges vs table sizes) = the select() obligations of C11")
     for cfg, mode, backend in cfgs:
         F = FS.get((cfg, mode))
@@ -80,6 +81,14 @@ def run(tier, R):
         none_rule(F, R, Iq, backend, tier)
         if cfg in ("simd", "notables", "ifma") or tier == "thorough":
             lincomb(F, R, Iq, cfg)
+        if cfg == "simd" or tier == "thorough":
+            import codec_rules as CR
+            nr = 0
+            import itertools
+            for inst, f_, ok, msg in itertools.chain(CR.recodings(F), CR.naf_invariant(F)):
+                nr += 1
+                (R.ok if ok else R.viol)("C04.recode", Iq(inst), msg, *(() if ok else (F.loc(f_),)))
+            R.floor("C04.recode", Iq("signed-digit recodings decided"), nr, 9)
 
 
 # ------------------------------------------------------------------------------------------------------------ COVER.write
@@ -249,6 +258,19 @@ def lincomb(F, R, I_, cfg):
 
     def check(inst, f, args, pairs, unwrap=False, self_from=None):
         """pairs: [(point symbol, scalar id)] expected  sum_pairs sum_i 2^(w i) d_{scalar,i} * point  with w the width the routine recoded that scalar with"""
+        # zero scalars: every digit is zero, so every work-skipping path is taken at once; the result must still be the identity (and Some)
+        try:
+            zret, zip_ = LC.run(F, f, args, zero_digits=True)
+            if unwrap and zret is not None and zret[0] == "en":
+                zs = [fs[0] for v, fs in zret[1] if v == 1 and fs]
+                zret = zs[0] if {v for v, _ in zret[1]} == {1} and zs else ("none",)
+            if zret is None or zret[0] != "lc" or LC.terms(zret):
+                R.viol("C04.lincomb.zero", I_(inst), "with every scalar zero (and every point present) the routine returns %s, not the identity" % (
+                    "None" if zret == ("none",) else (LC.terms(zret) if zret is not None and zret[0] == "lc" else "a value outside the domain")), F.loc(f))
+            else:
+                R.ok("C04.lincomb.zero", I_(inst), "all-zero scalars give the identity")
+        except Exception as e:
+            R.viol("C04.lincomb.zero", I_(inst), "analysis failed: %r" % (e,), F.loc(f))
         try:
             ret, ip = LC.run(F, f, args)
         except Exception as e:
